@@ -1150,7 +1150,7 @@ func finishCopy(xp []string, guard bool, handlerErr string) []string {
 
 func init() { generators["copy"] = genCopy }
 
-const binVariants = 5
+const binVariants = 7
 
 // genBinCopy (C14): a table shape and row set over the supported types, encoded in the binary
 // COPY format (optional header incl. extension area, optional trailer) and cut into CopyData
@@ -1324,6 +1324,26 @@ func genBinCopy(_ *rand.Rand, id string) *Case {
 		}
 		sort.Ints(pts)
 		cut(pts)
+	case 5:
+		// message boundaries at the rows; empty CopyData messages are added below (they contribute nothing)
+		cut(rowStarts)
+	case 6:
+		// a small limit; the first message ends inside a row (or inside the header), every further message is
+		// as large as the limit allows
+		if !valid {
+			cut(nil) // a corrupted length is reported differently under a small limit: keep the default one
+			break
+		}
+		c.L = 64
+		p0 := 5
+		if len(rowStarts) > 0 {
+			p0 = rowStarts[0] + 3
+		}
+		pts := []int{p0}
+		for p := p0 + c.L; p < n; p += c.L {
+			pts = append(pts, p)
+		}
+		cut(pts)
 	}
 	script := strings.Join(colspec, ",") + "//g:1;B;A" + strconv.Itoa(nrows+3) + "?;c:" + hxs("COPY") + "/ok"
 	in := plainStartup("u")
@@ -1333,9 +1353,16 @@ func genBinCopy(_ *rand.Rand, id string) *Case {
 			continue
 		}
 		in = append(in, msgCopyData(ch)...)
+		if variant == 5 && r.Intn(3) == 0 {
+			in = append(in, msgCopyData(nil)...)
+		}
 		if r.Intn(6) == 0 {
 			in = append(in, msgFlush()...) // ignored inside COPY
 		}
+	}
+	if variant == 5 {
+		// also behind the last data byte (the trailer, when there is one), in front of CopyDone
+		in = append(in, msgCopyData(nil)...)
 	}
 	in = append(in, msgCopyDone()...)
 	in = append(in, msgQuery(probeQuery("END", 0))...)
